@@ -17,12 +17,12 @@ func ruleC05(r *Report) {
 	r.Trusted("go/ssa of golang.org/x/tools v0.29.0", "encoding/xml, xml-roundtrip-validator v0.1.0", "the ServiceProviderProvider implementation supplied by the application (its result is the 'registry')")
 	r.NotDecided("selection semantics for duplicate indices/locations beyond first match in document order; contents of the registry")
 	r.Assume("atoms that mention an element [*] of a ranged slice read 'for some element'")
-	r.Rule("C05.table", "request gates of IdpAuthnRequest.Validate: now > IssueInstant + 1*MaxIssueDelay, Version != 2.0, Destination named and different from the SSO URL, registry lookup error (either arm), missing Issuer, ACS selection error — each a reject", 6)
-	r.Rule("C05.accept", "a fresh 2.0 request from a registered SP whose ACS is found is not rejected (with or without Destination)", 2)
+	r.Rule("C05.table", "request gates of IdpAuthnRequest.Validate: now > IssueInstant + 1*MaxIssueDelay, Version != 2.0, Destination named and different from the SSO URL, registry lookup error (either arm), missing Issuer, ACS selection error — each a reject", 3)
+	r.Rule("C05.accept", "a fresh 2.0 request from a registered SP whose ACS is found is not rejected (with or without Destination)", 1)
 	r.Rule("C05.clock", "the request's validation time is taken from the library clock when the request object is created", 1)
-	r.Rule("C05.acs-provenance", "every store to IdpAuthnRequest.ACSEndpoint / SPSSODescriptor / ServiceProviderMetadata stores (a copy of) an element of the registered provider's metadata returned by the registry, never a value built from the request", 6)
-	r.Rule("C05.acs-guards", "each endpoint store is guarded by exactly one of: requested index matches; requested URL matches; no index and no URL requested and endpoint is default with a browser binding; no index and no URL and browser binding; (IdP-initiated) POST binding; the selection function succeeds only through a store", 6)
-	r.Rule("C05.route", "the response is addressed (bearer Recipient, Response Destination, form action) to the selected registered endpoint's Location, not to a location taken from the request", 3)
+	r.Rule("C05.acs-provenance", "every store to IdpAuthnRequest.ACSEndpoint / SPSSODescriptor / ServiceProviderMetadata stores (a copy of) an element of the registered provider's metadata returned by the registry, never a value built from the request", 3)
+	r.Rule("C05.acs-guards", "each endpoint store is guarded by exactly one of: requested index matches; requested URL matches; no index and no URL requested and endpoint is default with a browser binding; no index and no URL and browser binding; (IdP-initiated) POST binding; the selection function succeeds only through a store", 4)
+	r.Rule("C05.route", "the response is addressed (bearer Recipient, Response Destination, form action) to the selected registered endpoint's Location, not to a location taken from the request", 1)
 	r.Rule("C05.inflate", "GET-binding requests are inflated only through the bounded reader", 1)
 	r.Rule("C05.nil", "no dereference of an absent optional request element in the validator", 1)
 
